@@ -106,6 +106,16 @@ Proof.
   apply (Hloop _ _ Hl).
 Qed.
 
+Lemma reset_list_gen pushf k val offs m e l b' : Forall (ResetOk pushf) l ->
+  (do val' <- set_validity val (length offs - 1) true ;;
+   do oe <- list_loop pushf (list_wide k) l (duplicate_last offs) e ;;
+   Ok (BdList k val' (fst oe) m (snd oe))) = Ok b' ->
+  reset b' = reset (BdList k val offs m e).
+Proof.
+  intros Hall H. apply bind_ok in H as (val' & Hs & H). apply bind_ok in H as ([offs' e'] & Hloop & H). injection H as <-.
+  cbn [reset fst snd]. rewrite (reset_validity_set _ _ _ _ Hs), (list_loop_reset _ _ _ Hall _ _ _ _ Hloop). reflexivity.
+Qed.
+
 Lemma reset_list k val offs m e l b' : Forall (ResetOk push) l ->
   (do val' <- set_validity val (length offs - 1) true ;;
    do oe <- list_loop push (list_wide k) l (duplicate_last offs) e ;;
@@ -127,11 +137,26 @@ Ltac reset_leaf :=
   repeat match goal with Hs : set_validity _ _ _ = Ok _ |- _ => rewrite (reset_validity_set _ _ _ _ Hs); clear Hs end;
   reflexivity.
 
+Lemma reset_push_scalar x : ResetOk push_scalar x.
+Proof.
+  intros b b' H; destruct b; cbn [push_scalar] in H; try discriminate;
+  repeat match type of H with
+         | match ?v with _ => _ end = Ok _ => destruct v; try discriminate
+         | context [text_of_scalar ?v] => destruct (text_of_scalar v) as [[| | |?| | | |]| |]; try discriminate
+         | bind _ _ = Ok _ => let x := fresh "x" in let Hx := fresh "Hx" in apply bind_ok in H as (x & Hx & H)
+         end;
+  injection H as <-; cbn [reset];
+  repeat match goal with Hs : set_validity _ _ _ = Ok _ |- _ => rewrite (reset_validity_set _ _ _ _ Hs); clear Hs end;
+  reflexivity.
+Qed.
+
 (* a push never changes what the builder resets to *)
 Theorem reset_push : forall v, ResetOk push v.
 Proof.
   induction v using Value_ind'; unfold ResetOk in *.
-  - reset_leaf. - reset_leaf. - reset_leaf. - reset_leaf. - reset_leaf. - reset_leaf. - reset_leaf.
+  - reset_leaf. - reset_leaf. - reset_leaf. - reset_leaf. - reset_leaf. - reset_leaf.
+  - intros b b' H. destruct b; cbn [push prim_value text_of_scalar bind] in H; try discriminate.
+    eapply (reset_list_gen push_scalar); [|exact H]. apply Forall_forall. intros x _. apply reset_push_scalar.
   - intros b b' H. cbn [push] in H. apply reset_push_none, H.
   - intros b b' H. cbn [push] in H. apply IHv, H.
   - intros b b' H. cbn [push] in H. apply reset_push_none, H.
